@@ -139,6 +139,270 @@ def sticky_error_ok(fn, call, pm):
     return bool(oks), 'every Err of generate_ui_file(..) either returns at once or sets a flag that is never cleared; Ok(()) is returned only when the flag is unset (remaining sources are still processed)'
 
 
+def diagnostics_store(ck, L):
+    """R4.6: the decision `this source has an error` (has_error) is a function of everything that was pushed."""
+    he = L.fn('diagnostic::Diagnostics::has_error')
+    pu = L.fn('diagnostic::Diagnostics::push')
+    if he is None or pu is None:
+        ck.floor('R4.6', 0, 1, 'fns Diagnostics::has_error / push')
+        return
+    ck.analysed(he['path'])
+    ck.analysed(pu['path'])
+    members = [f for f in L.fn_list if (f.get('impl_self') or '').replace("&'a ", '') == 'diagnostic::Diagnostics' and f.get('x') is None]
+
+    def self_field(e):
+        e = H.strip_refs(e)
+        if e.get('k') == 'Field' and H.strip_refs(e['e']).get('k') == 'Path' and H.strip_refs(e['e']).get('name') == 'self':
+            return e.get('f')
+        return None
+
+    def is_error_test(x, hids):
+        """x is `<d>.kind() == DiagnosticKind::Error` (either order) or matches!(<d>.kind(), Error) for d in hids."""
+        x = H.strip_refs(x)
+        if x.get('k') == 'Binary' and x.get('op') == 'Eq':
+            for a, b in ((x['l'], x['r']), (x['r'], x['l'])):
+                a, b = H.strip_refs(a), H.strip_refs(b)
+                if a.get('k') == 'MCall' and a.get('m') == 'kind' and (H.root_local(a['recv']) or {}).get('hid') in hids and \
+                        b.get('k') == 'Path' and (b.get('def') or '').endswith('DiagnosticKind::Error'):
+                    return True
+        if x.get('k') == 'Match' and len(x['arms']) == 2:
+            sc = H.strip_refs(x['e'])
+            if sc.get('k') == 'MCall' and sc.get('m') == 'kind' and (H.root_local(sc['recv']) or {}).get('hid') in hids:
+                t = [a for a in x['arms'] if pp(a['pat']).endswith('DiagnosticKind::Error') and H.lit_value(a['body']) is True and 'guard' not in a]
+                f_ = [a for a in x['arms'] if a['pat'].get('k') == 'Wild' and H.lit_value(a['body']) is False]
+                return len(t) == 1 and len(f_) == 1
+        return False
+
+    vals = list(H.return_exprs(he['body']))
+    form = None
+    store = None
+    if len(vals) == 1:
+        v = H.strip_refs(vals[0])
+        if v.get('k') == 'MCall' and v.get('m') == 'any' and len(v['args']) == 1 and v['args'][0].get('k') == 'Closure':
+            r = H.strip_refs(v['recv'])
+            while r.get('k') == 'MCall' and r.get('m') in ('iter', 'into_iter', 'as_slice') and not r['args']:
+                r = H.strip_refs(r['recv'])
+            store = self_field(r)
+            cl = v['args'][0]
+            hids = {b['hid'] for p_ in cl['params'] for b in H.pat_bindings(p_)}
+            cb = cl['body']
+            while cb.get('k') in ('Block', 'DropTemps', 'Paren') and not cb.get('stmts') and 'e' in cb:
+                cb = cb['e']
+            if store and is_error_test(cb, hids):
+                form = 'search'
+        elif self_field(v) and 'bool' == (L.ty(v) or ''):
+            form = 'flag'
+            flag = self_field(v)
+    if form is None:
+        ck.ob('R4.6', 'has_error-is-search-for-an-error', False, L.loc(he['body']),
+              'has_error() is neither `self.<list>.iter().any(|d| d.kind() == DiagnosticKind::Error)` nor an or-accumulated flag: %s' % pp(he['body'], maxlen=120))
+        return
+    # the list field every append goes to
+    appends = []
+    for f in members:
+        for c in H.calls_in(f['body']):
+            if c.get('k') == 'MCall' and self_field(c['recv']):
+                appends.append((f, c))
+    if form == 'flag':
+        store = next((self_field(c['recv']) for f, c in appends if f is pu and c.get('m') == 'push'), None)
+        writes = [(f, n) for f in members for n in walk(f['body']) if n.get('k') in ('Assign', 'AssignOp') and self_field(n['l']) == flag]
+        okf = bool(writes) and store is not None
+        hid_p = {b['hid'] for p_ in pu.get('params', [])[1:] for b in H.pat_bindings(p_)}
+        for f, n in writes:
+            if f is not pu:
+                okf = False
+                continue
+            # self.flag |= test   or   self.flag = self.flag || test, with test on the pushed diagnostic (possibly through a let of .into())
+            let_hids = set(hid_p)
+            for b in H.binding_sites(pu).values():
+                if b['kind'] == 'let' and b['node'].get('init') is not None and (H.root_local(b['node']['init']) or {}).get('hid') in hid_p:
+                    let_hids.add(b['bind']['hid'])
+            if n['k'] == 'AssignOp' and n.get('op') in ('BitOrAssign', 'BitOr'):
+                okf = okf and is_error_test(n['r'], let_hids)
+            elif n['k'] == 'Assign' and H.strip_refs(n['r']).get('k') == 'Binary' and H.strip_refs(n['r']).get('op') == 'Or':
+                rr = H.strip_refs(n['r'])
+                okf = okf and ((self_field(rr['l']) == flag and is_error_test(rr['r'], let_hids)) or (self_field(rr['r']) == flag and is_error_test(rr['l'], let_hids)))
+            else:
+                okf = False
+            okf = okf and not any(a.get('k') in ('If', 'Match', 'Closure', 'For', 'Loop') for a in H.ancestors(pu, n))
+        ck.ob('R4.6', 'has_error-is-search-for-an-error', okf, L.loc(he['body']),
+              'has_error() returns the flag `%s`, which push() or-accumulates unconditionally with `kind() == Error` of the pushed diagnostic' % flag if okf else
+              'has_error() returns the field `%s`, but that is not or-accumulated with `kind() == Error` in push() alone and unconditionally' % flag)
+    else:
+        flds = {self_field(n) for n in walk(he['body']) if n.get('k') == 'Field'} - {None}
+        ck.ob('R4.6', 'has_error-is-search-for-an-error', flds == {store}, L.loc(he['body']), 'has_error() = self.%s.iter().any(|d| d.kind() == DiagnosticKind::Error); no other state is consulted' % store)
+    # the store only grows, and push() stores what it is given on every path
+    bad = []
+    n_app = 0
+    for f, c in appends:
+        if self_field(c['recv']) != store:
+            continue
+        if c.get('m') in ('push', 'extend', 'append', 'extend_from_slice'):
+            n_app += 1
+            if form == 'flag' and f is not pu:
+                bad.append('%s appends to the list without going through push() (the flag is not updated)' % short(f['path']))
+        elif c.get('m') not in ('iter', 'len', 'is_empty', 'as_slice', 'first', 'last', 'get', 'clone', 'fmt'):
+            bad.append('%s calls %s() on the list' % (short(f['path']), c.get('m')))
+    for f in members:
+        for n in walk(f['body']):
+            if n.get('k') in ('Assign', 'AssignOp') and self_field(n['l']) == store:
+                bad.append('%s assigns the list' % short(f['path']))
+    ck.ob('R4.6', 'store-only-grows', not bad and n_app >= 1, L.loc(pu['body']), '%d append sites (push / extend); no removal, replacement or truncation of self.%s' % (n_app, store) if not bad else '; '.join(bad))
+    pc = [c for c in H.calls_in(pu['body']) if c.get('k') == 'MCall' and c.get('m') == 'push' and self_field(c['recv']) == store]
+    hid_p = {b['hid'] for p_ in pu.get('params', [])[1:] for b in H.pat_bindings(p_)}
+    okp = len(pc) == 1 and not any(a.get('k') in ('If', 'Match', 'Closure', 'For', 'Loop') for a in H.ancestors(pu, pc[0]))
+    if okp:
+        srcs = [o for o in H.origins(pu, pc[0]['args'][0])]
+        roots = set()
+        for o in srcs:
+            o = H.strip_refs(o)
+            while o.get('k') == 'MCall' and o.get('m') in ('into', 'clone', 'to_owned'):
+                o = H.strip_refs(o['recv'])
+            roots.add(o.get('hid') if o.get('k') in ('Path', 'Bind') else None)
+        okp = bool(roots) and roots <= hid_p
+    ck.ob('R4.6', 'push-stores-its-argument-on-every-path', okp, L.loc(pu['body']), 'push(diag): self.%s.push(diag.into()), unconditionally' % store)
+    # the kind that is searched for is the kind the constructors record
+    dn = L.fn('diagnostic::Diagnostic::new')
+    for nm, kind in (('error', 'Error'), ('warning', 'Warning')):
+        f = L.fn('diagnostic::Diagnostic::' + nm)
+        ok = False
+        if f is not None and dn is not None:
+            cs = [c for c in H.calls_in(f['body']) if (H.callee(c) or H.callee_decl(c) or '').endswith('Diagnostic::new')]
+            ok = len(cs) == 1 and H.strip_refs(cs[0]['args'][0]).get('k') == 'Path' and (H.strip_refs(cs[0]['args'][0]).get('def') or '').endswith('DiagnosticKind::' + kind)
+        ck.ob('R4.6', 'constructor-kind|%s' % nm, ok, L.loc(f['body']) if f else '', 'Diagnostic::%s(..) records DiagnosticKind::%s' % (nm, kind))
+    kf = L.fn('diagnostic::Diagnostic::kind')
+    ok = False
+    if kf is not None and dn is not None:
+        v = [H.strip_refs(x) for x in H.return_exprs(kf['body'])]
+        st = next((n for n in walk(dn['body']) if n.get('k') == 'Struct'), None)
+        kfld = next((f_['e'] for f_ in (st or {}).get('fields', []) if f_['f'] == 'kind'), None)
+        p0 = {b['hid'] for b in H.pat_bindings(dn['params'][0])} if dn.get('params') else set()
+        ok = len(v) == 1 and self_field(v[0]) == 'kind' and kfld is not None and (H.root_local(kfld) or {}).get('hid') in p0
+    ck.ob('R4.6', 'kind-is-the-recorded-kind', ok, L.loc(kf['body']) if kf else '', 'kind() returns the field that Diagnostic::new fills from its kind parameter')
+
+
+NARROWING = {'filter', 'skip', 'take', 'step_by', 'skip_while', 'take_while', 'dedup', 'unique', 'filter_map', 'flatten', 'rev', 'last', 'nth', 'find', 'position'}
+
+
+def layout_data_written(ck, L):
+    """R4.7: in the layout serializers an attribute is written under no other condition than the presence of the data it is made of."""
+    n_attr = 0
+    for path in ('uigen::layout::Layout::serialize_to_xml', 'uigen::layout::LayoutItem::serialize_to_xml'):
+        fn = L.fn(path)
+        if fn is None:
+            ck.floor('R4.7', 0, 1, 'fn ' + path)
+            continue
+        ck.analysed(fn['path'])
+
+        def field_path(e):
+            e = H.strip_refs(e)
+            while e.get('k') == 'MCall' and e.get('m') in ('as_ref', 'as_deref', 'iter', 'as_slice', 'clone') and not e['args']:
+                e = H.strip_refs(e['recv'])
+            t = pp(e, maxlen=80)
+            return t if e.get('k') == 'Field' and t.startswith('self.') else None
+
+        def none_only_when_empty(f2, idx):
+            """every None result of f2 is decided by `<param idx>.is_empty()`; returns (ok, why)."""
+            ph = {b['hid'] for b in H.pat_bindings(f2['params'][idx])}
+            bad = []
+            n_none = 0
+            for r in H.return_exprs(f2['body']):
+                rr = H.strip_refs(r)
+                if not (rr.get('k') == 'Path' and (rr.get('def') or '').endswith('Option::None')):
+                    # a Some(..) result: made of every element
+                    for c in H.calls_in(r):
+                        if c.get('k') == 'MCall' and c.get('m') in NARROWING:
+                            bad.append('the value drops elements (%s)' % c['m'])
+                    continue
+                n_none += 1
+                decided = False
+                for a in H.ancestors(f2, r):
+                    if a.get('k') != 'If':
+                        continue
+                    c = H.strip_refs(a['c'])
+                    neg = False
+                    if c.get('k') == 'Unary' and c.get('op') == 'Not':
+                        neg, c = True, H.strip_refs(c['e'])
+                    is_empty = c.get('k') == 'MCall' and c.get('m') == 'is_empty' and (H.root_local(c['recv']) or {}).get('hid') in ph and H.strip_refs(c['recv']).get('k') == 'Path'
+                    in_then = any(x is r for x in walk(a['then']))
+                    if is_empty and (in_then != neg):
+                        decided = True
+                if not decided:
+                    bad.append('None is returned on a path that is not decided by `%s.is_empty()`' % (f2['params'][idx].get('name') or 'array'))
+            return (not bad, '; '.join(bad) or 'None only for an empty list (%d site(s))' % n_none)
+
+        for c in H.calls_in(fn['body']):
+            if not (c.get('k') == 'MCall' and c.get('m') == 'push_attribute' and c['args']):
+                continue
+            tup = H.strip_refs(c['args'][0])
+            name = H.lit_value(tup['es'][0]) if tup.get('k') == 'Tup' and tup['es'] else None
+            if name in ('class', 'name') or name is None:
+                if name is None:
+                    ck.ob('R4.7', 'attribute-name-literal|%s' % short(fn['path']), False, L.loc(c), 'attribute written with a computed name')
+                continue
+            n_attr += 1
+            conds = []
+            ok = True
+            why = []
+            for a in H.ancestors(fn, c):
+                if a.get('k') in ('Closure', 'For', 'Loop', 'Match'):
+                    ok = False
+                    why.append('written inside a %s' % a['k'])
+                if a.get('k') != 'If':
+                    continue
+                in_then = any(x is c for x in walk(a['then']))
+                cd = a['c']
+                if cd.get('k') == 'LetCond':
+                    pat = cd['pat']
+                    while pat.get('k') in ('PRef', 'PDeref'):
+                        pat = pat['p']
+                    some = pat.get('k') == 'PTS' and (pat.get('def') or '').endswith('Option::Some') and in_then
+                    fp = field_path(cd['e'])
+                    if some and fp:
+                        conds.append('%s is Some' % fp)
+                        continue
+                    sc = H.strip_refs(cd['e'])
+                    if some and sc.get('k') in ('Call', 'MCall'):
+                        f2 = L.fn(H.callee(sc) or H.callee_decl(sc) or '?')
+                        args = H.call_args(sc)
+                        idx = next((i for i, x in enumerate(args) if field_path(x)), None)
+                        if f2 is not None and idx is not None and f2.get('body') is not None:
+                            ok2, why2 = none_only_when_empty(f2, idx)
+                            if ok2:
+                                conds.append('%s(%s) is Some, %s' % (short(f2['path']), field_path(args[idx]), why2))
+                                continue
+                            why.append('%s(): %s' % (short(f2['path']), why2))
+                    ok = False
+                    why.append('guard `%s`' % pp(cd, maxlen=70))
+                    continue
+                x = H.strip_refs(cd)
+                neg = False
+                if x.get('k') == 'Unary' and x.get('op') == 'Not':
+                    neg, x = True, H.strip_refs(x['e'])
+                if x.get('k') == 'MCall' and x.get('m') == 'is_empty' and field_path(x['recv']) and (neg == in_then):
+                    conds.append('%s is not empty' % field_path(x['recv']))
+                    continue
+                ok = False
+                why.append('guard `%s`' % pp(cd, maxlen=70))
+            # the value is made of all the data: no narrowing adaptor, and the formatter it goes through keeps every element
+            val = tup['es'][1] if len(tup['es']) > 1 else None
+            if val is not None:
+                for cc in H.calls_in(val):
+                    if cc.get('k') == 'MCall' and cc.get('m') in NARROWING:
+                        ok = False
+                        why.append('the value drops elements (%s)' % cc['m'])
+                    f3 = L.fn(H.callee(cc) or H.callee_decl(cc) or '?') if cc.get('k') == 'Call' else None
+                    if f3 is not None and f3.get('body') is not None and f3['path'].startswith('uigen::layout::'):
+                        for c3 in H.calls_in(f3['body']):
+                            if c3.get('k') == 'MCall' and c3.get('m') in NARROWING:
+                                ok = False
+                                why.append('%s() drops elements (%s)' % (short(f3['path']), c3['m']))
+            ck.ob('R4.7', 'written-iff-present|%s|%s' % (short(fn['path']).split('::')[0], name), ok, L.loc(c),
+                  'attribute %s: %s' % (name, '; '.join(conds) or 'always written') if ok else
+                  'attribute %s is not written for every value that was collected (%s): a binding that was evaluated and marked as used leaves no trace in the .ui' % (name, '; '.join(why)), fn=fn['path'])
+    ck.floor('R4.7', n_attr, 10, 'conditional attributes of <layout> and <item>')
+
+
 def run(ck):
     F = ck.facts
     L = F.lib
@@ -159,6 +423,8 @@ def run(ck):
     ck.rule('R4.2', 'bindings that were not embedded are selected for code generation or rejected')
     ck.rule('R4.3', 'every pseudo property excluded from generic handling has a handler')
     ck.rule('R4.4', 'diagnosed sources write nothing and exit non-zero')
+    ck.rule('R4.6', 'has_error() is true exactly when an error was pushed: the store only grows and is searched whole')
+    ck.rule('R4.7', 'layout data collected from attached bindings is written whenever it is present, whatever its value')
 
     # ---- R4.1 ---------------------------------------------------------------------------
     table = {r['key']: r for r in load_table('none_sources.json')['rows']}
@@ -450,6 +716,9 @@ def run(ck):
             # match arms on the key (LayoutFlow::parse reads the three grid pseudo properties by name)
         ck.ob('R4.3', 'handler|%s' % name, bool(handlers), '', 'excluded in %s; handled by %s' % (sorted(short(f) for f in fns), sorted(set(handlers))[:4]) if handlers else
               'pseudo property "%s" is excluded from generic handling in %s but no code reads it: the binding takes effect nowhere' % (name, sorted(short(f) for f in fns)))
+
+    diagnostics_store(ck, L)
+    layout_data_written(ck, L)
 
     # ---- R4.4 CLI -----------------------------------------------------------------------------------------
     guf = B.fn('generate_ui_file')
